@@ -21,8 +21,24 @@ from decimal import Decimal
 from fractions import Fraction
 
 from harness import rulelib as RL
+from harness import vtrees as VT
 
 ACCEPT, REJECT, LENIENT = "accept", "reject", "lenient"
+
+
+# implementation runs with FRESH string objects for every name/value handed to the library
+def impl_named_rule(rname, name, content, attrs, kids):
+    return RL.impl_named_rule(VT.fr(rname), VT.fr(name), VT.fr(content), [(VT.fr(k), VT.fr(v)) for k, v in attrs], [VT.fr(k) for k in kids])
+
+
+def impl_rule(rule_json, mixed, name, content, attrs, kids):
+    import json
+    return RL.impl_rule(json.loads(json.dumps(rule_json)), mixed, VT.fr(name), VT.fr(content), [(VT.fr(k), VT.fr(v)) for k, v in attrs], [VT.fr(k) for k in kids])
+
+
+def impl_node(name, content, attrs, kids):
+    return RL.impl_node(VT.fr(name), VT.fr(content), [(VT.fr(k), VT.fr(v)) for k, v in attrs], [VT.fr(k) for k in kids])
+
 
 # ------------------------------------------------------------------ lexical classes
 INT_CANON = re.compile(r"-?[0-9]+\Z")
@@ -376,7 +392,7 @@ class Reused:
         from metapype.eml import rule as R
         from harness import vtrees as VT
         self.rule = R.Rule(rname)
-        self.node = RL.build_node("x", None, attrs, kidnames)
+        self.node = VT.build_node("x", None, attrs, kidnames)
         self.errs = VT.foreign_entries()
 
     def observe(self, content):
@@ -434,7 +450,7 @@ def run(ctx):
         enum = rj[2].get("content_enum") if "content_enum" in rj[2] else None
         mixed = rname in mixed_names
         attrs, kids = skeleton(rj)
-        base_ff, base_codes = RL.impl_named_rule(rname, "x", RL.canonical_content(rj), attrs, kids)
+        base_ff, base_codes = impl_named_rule(rname, "x", RL.canonical_content(rj), attrs, kids)
         baseline_ok = base_ff == "OK" and base_codes == []
         ctx.count("skeleton_valid" if baseline_ok else "skeleton_not_valid")
         section = (tuple(crs), tuple(enum) if enum is not None else None, mixed)
@@ -450,9 +466,20 @@ def run(ctx):
         fc = first_child(rj)
         if mixed and fc is not None:
             variants.append([fc])
+        if mixed and fc is not None:
+            # sizes past the small-int cache: 300 children standing in for text (statement only)
+            for content in (None, "", "x"):
+                ffw, codesw = impl_named_rule(rname, "x", content, attrs, [fc] * 300)
+                vw, clsw = expected(crs, enum, mixed, content, 300)
+                ctx.case((section, content, "300-children"), True)
+                cw = [c for c in codesw if c.startswith(CONTENT_CODES)]
+                if ffw.startswith("CRASH") or any(c.startswith("CRASH") for c in codesw) or (vw == ACCEPT and cw) or (vw == REJECT and not cw):
+                    ctx.fail(f"C02:wide:{rname}:{clsw}", f"with 300 children: expected {vw}, observed ff={ffw} content codes={cw}",
+                             {"kind": "impl-vs-statement", "rule": rname, "content_rules": crs, "content_enum": enum, "mixed": mixed, "content": content,
+                              "attributes": attrs, "children": [fc] * 300, "class": clsw, "observed_ff": ffw, "observed_codes": codesw, "expected": vw})
         for kidnames in variants:
             for content in pool:
-                ff, codes = RL.impl_named_rule(rname, "x", content, attrs, kidnames)
+                ff, codes = impl_named_rule(rname, "x", content, attrs, kidnames)
                 verdict, cls = expected(crs, enum, mixed, content, len(kidnames))
                 ccodes = [c for c in codes if c.startswith(CONTENT_CODES)]
                 other = [c for c in codes if not c.startswith(CONTENT_CODES)]
@@ -515,7 +542,7 @@ def run(ctx):
             lp = pool_for(ctx, crs, rj[2].get("content_enum") if "content_enum" in rj[2] else None, 1)
             leaves.append((name, attrs, ctx.rng.choice(lp)))
         tt = typed_leaf_tree(ctx.rng, leaves)
-        root = RL.build_tree(tt)
+        root = VT.build_tree(tt)
         errs = []
         raised = None
         try:
@@ -533,7 +560,7 @@ def run(ctx):
             verdict, cls = expected(rj[2]["content_rules"], rj[2].get("content_enum") if "content_enum" in rj[2] else None, False, content, 0)
             leaf = root.children[k]
             got = [RL.entry_code(e) for e in errs if len(e) > 2 and e[2] is leaf and RL.entry_code(e).startswith(CONTENT_CODES)]
-            alone = RL.impl_node(name, content, attrs, [])[1]
+            alone = impl_node(name, content, attrs, [])[1]
             alone_c = [c for c in alone if c.startswith(CONTENT_CODES)]
             if verdict == REJECT and not got:
                 ctx.fail(f"C02:tree:accepted:{cls}", f"in a tree whose earlier nodes already produced errors, <{name}> content {content!r} violating its constraints was not reported",
@@ -562,7 +589,7 @@ def run(ctx):
         ctx.rng.shuffle(pool)
         for content in [None, ""] + pool[:6]:
             kidnames = ["value"] if ctx.rng.random() < 0.4 else []
-            ff, codes = RL.impl_rule(rule_json, mixed, "x", content, [], kidnames)
+            ff, codes = impl_rule(rule_json, mixed, "x", content, [], kidnames)
             ctx.case(("random-section", tuple(crs), tuple(enum) if enum else None, mixed, content, bool(kidnames)), True)
             ctx.count("random_sections")
             rep = {"kind": "impl-vs-statement", "installed_rule": rule_json, "mixed": mixed, "content": content, "children": kidnames,
@@ -618,7 +645,7 @@ def replay(ctx, data):
         return run(ctx)
     if "history" in r and "rule" in r:
         attrs = [tuple(a) for a in r["attributes"]]
-        ff, codes = RL.impl_named_rule(r["rule"], "x", r["content"], attrs, r["children"])
+        ff, codes = impl_named_rule(r["rule"], "x", r["content"], attrs, r["children"])
         h = Reused(r["rule"], attrs, r["children"])
         h.observe("x")
         hff, hfirst, hshared, hagain = h.observe(r["content"])
@@ -630,23 +657,23 @@ def replay(ctx, data):
         return
     if "tree" in r:
         from metapype.eml import validate
-        root = RL.build_tree(r["tree"])
+        root = VT.build_tree(r["tree"])
         errs = []
         validate.tree(root, errs)
         k = r.get("leaf_index", 0)
         leaf = root.children[k]
         got = [RL.entry_code(e) for e in errs if e[2] is leaf and RL.entry_code(e).startswith(CONTENT_CODES)]
-        alone = [c for c in RL.impl_node(r["leaf"], r["content"], [tuple(a) for a in r["tree"][3][k][2]], [])[1] if c.startswith(CONTENT_CODES)]
+        alone = [c for c in impl_node(r["leaf"], r["content"], [tuple(a) for a in r["tree"][3][k][2]], [])[1] if c.startswith(CONTENT_CODES)]
         print(f"<{r['leaf']}> content {r['content']!r}: inside the tree {got}; validated alone {alone}; expected {r.get('expected')}")
         ctx.case()
         if got != alone or (r.get("expected") == REJECT and not got) or (r.get("expected") == ACCEPT and got):
             ctx.fail(data.get("key", "C02:tree"), data.get("what", "content verdict inside a tree contradicts the statement"), r)
         return
     if "installed_rule" in r:
-        ff, codes = RL.impl_rule(r["installed_rule"], r["mixed"], "x", r["content"], [], r["children"])
+        ff, codes = impl_rule(r["installed_rule"], r["mixed"], "x", r["content"], [], r["children"])
         crs, enum = r["installed_rule"][2]["content_rules"], r["installed_rule"][2].get("content_enum")
     else:
-        ff, codes = RL.impl_named_rule(r["rule"], "x", r["content"], [tuple(a) for a in r["attributes"]], r["children"])
+        ff, codes = impl_named_rule(r["rule"], "x", r["content"], [tuple(a) for a in r["attributes"]], r["children"])
         crs, enum = r["content_rules"], r["content_enum"]
     known = all(c in ("emptyContent", "floatContent", "floatRangeContent_EW", "floatRangeContent_NS", "floatContent_Nonnegative", "intContent",
                       "nonEmptyContent", "strContent", "timeContent", "uriContent", "yearDateContent", "anyContent") for c in crs)
